@@ -65,6 +65,18 @@ CHECKS = {
         "Trusted: the postcondition code. count>=1, connectivity in [0,1] or default.",
         "DESIGN.md 4/C20",
     ),
+    "C17": (
+        "lock-step reference model {class -> {key -> instance}} replayed against the real metaclass machinery; identity/type/__init__-count/reporting monitors after every call",
+        "Runtime monitor: thousands of histories over 8 classes in 5 arrangements with a hostile argument set are executed on the real code and a model in lock step; every construction is judged on identity, type and __init__ count, every check/get_all on exact agreement with the model, and after every call every other class's live set is re-read (isolation).",
+        "Trusted: the ~40-line model; documented default key (args, json.dumps(kwargs, sort_keys=True)) compared with ==.",
+        "DESIGN.md 4/C17",
+    ),
+    "C18": (
+        "lock-step reference model {class -> instance} with per-class __init__ log; every live class re-observed after every call",
+        "Runtime monitor: histories of constructions and targeted/global clears over flat classes, a 3-level subclass chain, a derived metaclass and a Vertex subclass; each call is judged on identity, type, __init__ count and arguments, and after each call every class the model holds live is constructed again and must return its instance without running __init__.",
+        "Trusted: the ~20-line model. No re-entrant construction; single-threaded.",
+        "DESIGN.md 4/C18",
+    ),
 }
 
 NOT_YET = "check not built yet (work in progress; see DESIGN.md section 4)"
